@@ -285,6 +285,12 @@ func (p *Parser) parseVP8XChunks(buf []byte) error {
 		buf = buf[chunkTotal:]
 	}
 
+	if len(p.frames) == 0 {
+		// A VP8X file without any image data is incomplete (typically a file
+		// truncated before the image chunk); reporting features for it would
+		// disagree with what the complete file says.
+		return ErrTruncated
+	}
 	return nil
 }
 
